@@ -112,6 +112,16 @@ fn build(seed: u64, i: usize) -> Built {
             }
         }
     }
+    // included files need not be called `*.circom`: only named inputs and library files do
+    let mut odd_ext: BTreeSet<usize> = BTreeSet::new();
+    for k in 1..n {
+        if r.chance(1, 10) && nodes.iter().filter(|x| x.name == nodes[k].name).count() == 1 {
+            let ext = r.pick(&["inc", "txt", "circom.bak", "CIRCOM", ""]);
+            nodes[k].name = if ext.is_empty() { format!("f{k}") } else { format!("f{k}.{ext}") };
+            odd_ext.insert(k);
+            shapes.push("included-file-with-another-extension");
+        }
+    }
     // forward edges (j > i): chain / diamond material
     let mut edges: Vec<(usize, usize)> = Vec::new();
     for a in 0..n {
@@ -128,6 +138,11 @@ fn build(seed: u64, i: usize) -> Built {
     let mut force_lib = false;
     if n >= 5 && r.chance(1, 8) {
         let (l, y, bnode) = (n - 1, n - 2, n - 3);
+        for k in [l, y, bnode] {
+            if odd_ext.remove(&k) {
+                nodes[k].name = format!("f{k}.circom");
+            }
+        }
         nodes[l].dir = "lib".into();
         nodes[y].dir = "sub".into();
         nodes[y].name = nodes[l].name.clone();
@@ -230,9 +245,11 @@ fn build(seed: u64, i: usize) -> Built {
     let mut lib_file: Option<usize> = None;
     if r.chance(1, 5) {
         let k = 1 + r.usize(n - 1);
-        libs.push(nodes[k].path());
-        lib_file = Some(k);
-        shapes.push("library-file");
+        if !odd_ext.contains(&k) {
+            libs.push(nodes[k].path());
+            lib_file = Some(k);
+            shapes.push("library-file");
+        }
     }
     let all_dirs: Vec<String> = {
         let mut d: BTreeSet<String> = nodes.iter().map(|x| x.dir.clone()).filter(|d| !d.is_empty()).collect();
@@ -299,7 +316,23 @@ fn build(seed: u64, i: usize) -> Built {
     let mut bad = None;
     if r.chance(1, 4) {
         let k = r.usize(n);
-        let s = r.pick(&["nonexistent.circom", "./missing/x.circom", "../nowhere.circom", "lib/ghost.circom"]).to_string();
+        let mut s = r.pick(&["nonexistent.circom", "./missing/x.circom", "../nowhere.circom", "lib/ghost.circom"]).to_string();
+        // near misses of the library rules: a library file only answers to its bare name, a
+        // library directory never answers to a spelling that starts with a dot
+        if let (Some(lf), true) = (lib_file, r.chance(1, 2)) {
+            s = format!("{}/{}", r.pick(&["vendor", "lib9", "sub/none"]), nodes[lf].name);
+            shapes.push("unresolvable-include:directory-before-library-file-name");
+        } else if !given_lib_dirs.is_empty() && r.chance(1, 3) {
+            let d = *r.pick(&given_lib_dirs);
+            let in_lib: Vec<usize> = (0..n).filter(|&j| nodes[j].dir == d).collect();
+            if !in_lib.is_empty() && nodes[k].dir != d {
+                let j = *r.pick(&in_lib);
+                if !nodes.iter().any(|x| x.dir == nodes[k].dir && x.name == nodes[j].name) {
+                    s = format!("./{}", nodes[j].name);
+                    shapes.push("unresolvable-include:dot-spelling-of-library-name");
+                }
+            }
+        }
         nodes[k].bad_includes.push(s.clone());
         bad = Some((k, s));
         shapes.push("unresolvable-include");
@@ -338,7 +371,7 @@ fn build(seed: u64, i: usize) -> Built {
     } else {
         argv_inputs.push(nodes[0].path());
         for k in 1..n {
-            if r.chance(1, 4) {
+            if r.chance(1, 4) && !odd_ext.contains(&k) {
                 argv_inputs.push(nodes[k].path());
             }
         }
@@ -537,7 +570,7 @@ fn judge(runner: &Runner, b: &Built, o: &Outcome) -> Option<(String, String)> {
         }
     }
     for (f, c) in &counts {
-        if !rr.reachable.contains(f) && f.extension().map(|x| x == "circom").unwrap_or(false) && *c > 0 {
+        if !rr.reachable.contains(f) && (f.extension().map(|x| x == "circom").unwrap_or(false) || node_of.contains_key(f)) && *c > 0 {
             let rel = f.strip_prefix(&root).unwrap_or(f).display().to_string();
             return Some(("read-unreachable-file".into(), format!("`{rel}` is not reachable from the named files but was read")));
         }
@@ -820,7 +853,8 @@ pub fn run(env: &Env) -> i32 {
     cov.insert("shapes_reached".into(), json!(shapes));
     {
         let all = ["cycle", "self-include", "diamond", "double-spelling", "symlinked-file", "symlinked-dir", "library-dir", "second-library-dir", "library-file", "via-library-dir", "via-library-file",
-                   "library-file-shadowed-by-local-file", "same-name-in-two-directories", "local-candidate-fails-with-other-errno", "unresolvable-include", "unsupported-pragma-in-the-graph", "directory-input"];
+                   "library-file-shadowed-by-local-file", "same-name-in-two-directories", "local-candidate-fails-with-other-errno", "unresolvable-include", "unsupported-pragma-in-the-graph", "directory-input",
+                   "included-file-with-another-extension", "unresolvable-include:directory-before-library-file-name", "unresolvable-include:dot-spelling-of-library-name"];
         let mut probes: Vec<(&str, usize)> = all.iter().map(|k| (*k, shapes.get(k).copied().unwrap_or(0))).collect();
         probes.push(("damaged or unreadable include", results.iter().map(|r| r.faults_fired).sum::<usize>()));
         probes.push(("include-vs-inline twin judged", results.iter().filter(|r| r.twin_checked).count()));
